@@ -104,6 +104,14 @@ def h_agent_pose(sx):
 
 
 def obligations(tier):
+    obs = _obligations(tier)
+    for o in obs:  # a sample of the symbolically decided assertions is re-decided by the cvc5 binary
+        if o.name.startswith(('object-',)):
+            o.cross_check = 6 if tier == 'quick' else 60
+    return obs
+
+
+def _obligations(tier):
     q = tier == 'quick'
     obs = [Obligation('agent-pose-normalisation', h_agent_pose)]
     for kind in ('state', 'observation'):
